@@ -61,8 +61,9 @@ def cases(draw, tier):
         scale = 1.0  # (a threshold tuned on undefined scores is itself undefined)
     level = draw(K.level_strategy)
     want_int64 = draw(st.booleans())
-    n_train = draw(st.sampled_from([None, None, "shorter", "longer", "same_buffer"]))
+    n_train = draw(st.sampled_from([None, None, "shorter", "longer", "same_buffer", "fewer_columns", "more_columns"]))
     history = draw(st.sampled_from(K.HISTORIES))
+    dup_col = draw(st.integers(0, 5)) == 0  # a channel stored twice (two identical columns): the score still sums over all columns
     if bulk == "table":
         m = (n + 1) ** 3
         flat = draw(st.lists(st.integers(-1, 3), min_size=m, max_size=m))
@@ -73,6 +74,8 @@ def cases(draw, tier):
             X = [[v + 9.19e9 for v in row] for row in X]
         elif unit != 1.0:
             X = [[v * unit for v in row] for row in X]
+        if dup_col and p >= 2:
+            X = [[row[0]] + list(row[:-1]) for row in X]
     integral = all(float(v).is_integer() for row in X for v in row)
     return {"params": {"change_score": sc, "bandwidth": bw, "threshold_scale": scale, "level": level,
                        "min_detection_interval": mdi}, "X": X,
@@ -175,6 +178,10 @@ def check(case):
         classes.append("int64_input")
     if len(Xtrain) != n:
         classes.append("fitted_on_other_length")
+    if Xtrain.shape[1] != p:
+        classes.append("fitted_on_other_number_of_columns")
+    if p >= 2 and np.array_equal(X[:, 0], X[:, 1]) and np.ptp(X[:, 0]) > 0:
+        classes.append("duplicated_column")
     if history:
         classes.append(f"history={history}")
     if case.get("n_train") == "same_buffer":
